@@ -1,4 +1,54 @@
-import Cpl.Model.Evolve1D
+import Cpl.Spec.Ring
+import Cpl.Lemmas.Evolve1D
+import Cpl.Lemmas.Memo1D
+
+/-!
+# C09 — memoization invokes the rule at most once per distinct neighbourhood (1D part)
+
+The calls are observed through `recorder f`, a pure rule that appends `(n, c, t)` to its state on
+every invocation — the model-side twin of the harness's recording wrapper.
+-/
+
 namespace Cpl.C09
-theorem placeholder : True := trivial
+open Cpl Cpl.Spec
+
+variable {α : Type}
+
+/-- All neighbourhood contents that occur when stepping from each of the given rows. -/
+def occurring [Inhabited α] (r : Nat) (rows : List (List α)) : List (List α) :=
+  rows.flatMap fun row => (List.range row.length).map (window row r)
+
+/-- **memoize=True invokes the rule exactly once for each distinct neighbourhood content that occurs**
+    within one `evolve` call: the recorded neighbourhoods are duplicate-free and are exactly the
+    contents occurring in the rows that were stepped from (start row and all new rows but the last). -/
+theorem memo_calls_exactly_once [DecidableEq α] [Inhabited α] (f : List α → α) (hist : List (List α))
+    (init : List α) (hlast : hist.getLast? = some init) (T : Nat) (hT : 1 ≤ T) (r : Nat) (h1 : 1 ≤ r)
+    (h2 : r ≤ init.length) (out : List (List α)) (log : List (List α × Nat × Nat))
+    (h : evolveFixed hist T (recorder f) r .memo [] = .ok (out, log)) :
+    (log.map (·.1)).Nodup ∧
+    ∀ n, n ∈ log.map (·.1) ↔ n ∈ occurring r ((init :: pureRun f r (T - 1) init).take (T - 1)) := by
+  sorry
+
+/-- **memoize='recursive' invokes the rule at most once per distinct neighbourhood**, only on
+    neighbourhoods that occur, and within one step at most once per cell — hence never more often
+    than the unmemoized evolution. -/
+theorem rec_calls_at_most_once [DecidableEq α] [Inhabited α] (f : List α → α) (hist : List (List α))
+    (init : List α) (hlast : hist.getLast? = some init) (T : Nat) (hT : 1 ≤ T) (r : Nat) (h1 : 1 ≤ r)
+    (h2 : r ≤ init.length) (out : List (List α)) (log : List (List α × Nat × Nat))
+    (h : evolveFixed hist T (recorder f) r .recursive [] = .ok (out, log)) :
+    (log.map (·.1)).Nodup ∧
+    (∀ n, n ∈ log.map (·.1) → n ∈ occurring r ((init :: pureRun f r (T - 1) init).take (T - 1))) ∧
+    (∀ t, ((log.filter (fun e => e.2.2 = t)).map (·.2.1)).Nodup) ∧
+    (∀ e ∈ log, e.2.1 < init.length ∧ 1 ≤ e.2.2 ∧ e.2.2 ≤ T - 1) := by
+  sorry
+
+/-- Never more calls than the unmemoized evolution makes (`N` per step), in either memo mode. -/
+theorem memo_calls_le_plain [DecidableEq α] [Inhabited α] (f : List α → α) (mode : Mode)
+    (hm : mode = .memo ∨ mode = .recursive) (hist : List (List α))
+    (init : List α) (hlast : hist.getLast? = some init) (T : Nat) (hT : 1 ≤ T) (r : Nat) (h1 : 1 ≤ r)
+    (h2 : r ≤ init.length) (out : List (List α)) (log : List (List α × Nat × Nat))
+    (h : evolveFixed hist T (recorder f) r mode [] = .ok (out, log)) :
+    log.length ≤ init.length * (T - 1) := by
+  sorry
+
 end Cpl.C09
